@@ -663,7 +663,7 @@ def cache_histories(ctx, drv):
                     steps.append(ks)
             # map implementation keys to request keys: the key inserted at a step is the requested one
             nat = {k: i + 1 for i, k in enumerate(keys)}
-            model = drv.batch([{'op': 'cache', 'keys': [nat[k] for k in order], 'max': cmax}])[0]['steps']
+            model = drv.batch([{'op': 'compiled-cache', 'keys': [nat[k] for k in order], 'max': cmax}])[0]['steps']
             for name, steps in (('decoder', steps_d), ('encoder', steps_e)):
                 seen = {}
                 for pos, (k, ks, m) in enumerate(zip(order, steps, model)):
